@@ -298,6 +298,7 @@ var v10fSchedDirs = [][2]order.Direction{
 
 func v10fExecSched(sched int) {
 	verif.Schedules(sched)
+	verif.Races(true)
 	style := verif.Choose("style", 3) // inner, left, anti
 	ndirs := len(v10fSchedDirs)
 	if sched > 1 {
